@@ -471,10 +471,10 @@ func (v VT) Go() any {
 
 // Vary returns the term with randomly chosen Go representations (the model's
 // term is unchanged).
-func (v VT) Vary(r *RNG) VT { return v.vary(r, true) }
+func (v VT) Vary(r *RNG) VT { return v.vary(r, true, false) }
 
 // vary: with types = false the Go type of lists stays (its name is visible when a list is printed).
-func (v VT) vary(r *RNG, types bool) VT {
+func (v VT) vary(r *RNG, types, inner bool) VT {
 	out := v
 	if len(v.Items) > 0 {
 		out.Items = make([]VT, len(v.Items))
@@ -482,16 +482,30 @@ func (v VT) vary(r *RNG, types bool) VT {
 			if v.K == "list" && v.Elem != "any" || v.K == "arr" {
 				out.Items[i] = it // typed containers fix the representation of their items
 			} else {
-				out.Items[i] = it.vary(r, types)
+				out.Items[i] = it.vary(r, types, false)
 			}
 		}
 	}
 	if v.Inner != nil {
-		in := v.Inner.vary(r, types)
+		in := v.Inner.vary(r, types, true)
 		out.Inner = &in
 	}
 	if r.Bool() {
 		return out
+	}
+	// one time in eight another term that templates cannot tell apart: a
+	// non-negative int as an unsigned one, a scalar behind a pointer
+	if !types && !inner && r.Intn(8) == 0 {
+		switch v.K {
+		case "int":
+			if v.I >= 0 && r.Bool() {
+				return VT{K: "uint", U: uint64(v.I), Rep: r.Intn(5)}
+			}
+			out.Rep = r.Intn(6)
+			return vPtr(out)
+		case "float", "str", "bool", "uint":
+			return vPtr(out)
+		}
 	}
 	switch v.K {
 	case "int":
@@ -533,7 +547,7 @@ func (c CtxTerm) Varied(r *RNG) CtxTerm { return c.varied(r, true) }
 func (c CtxTerm) varied(r *RNG, types bool) CtxTerm {
 	out := CtxTerm{Names: c.Names, Vals: make([]VT, len(c.Vals))}
 	for i, v := range c.Vals {
-		out.Vals[i] = v.vary(r, types)
+		out.Vals[i] = v.vary(r, types, false)
 	}
 	return out
 }
